@@ -597,7 +597,7 @@ def run_once(body, prefix, traced_codes, max_steps=20000):
         threading.Thread.is_alive = _real_is_alive
         for t in s.threads[1:]:
             if t.thread is not None:
-                _real_join(t.thread, 5.0)
+                _real_join(t.thread, 60.0)
                 if _real_is_alive(t.thread):
                     raise common.ToolError(f"controlled thread {t.name} did not unwind")
         _ACTIVE = None
